@@ -1036,3 +1036,109 @@ Proof.
 Qed.
 
 End Main.
+
+(* ------------------------------------------------------------------------------------------ *)
+(* totality: the fragment parser neither faults nor loops on any pattern of non-negative runes *)
+
+Lemma is_space_hash : is_space 35 = false.
+Proof. vm_compute. reflexivity. Qed.
+
+Section Total2.
+Variable is_word_char : Z -> bool.
+Variable to_lower : Z -> Z.
+Variable is_cased : Z -> bool.
+Variable participates : Z -> bool.
+Variable ci_single : Z -> bool.
+Variable ci_set_id : Z -> Z.
+
+Local Notation SB := (scan_backslash is_word_char to_lower).
+Local Notation SBODY := (scan_body is_word_char to_lower is_cased participates ci_single ci_set_id).
+Local Notation SL := (scan_loop is_word_char to_lower is_cased participates ci_single ci_set_id).
+Local Notation PRE := (prepass is_word_char to_lower).
+Local Notation PARSE := (parse_lit is_word_char to_lower is_cased participates ci_single ci_set_id).
+Local Notation SB_ADV := (scan_backslash_advb is_word_char to_lower is_cased participates ci_single ci_set_id).
+
+(* every round of the outer loop of scanRegex consumes at least one rune (in x-mode because a
+   stopper that is not special is a blank, which scanBlank consumes): the loop cannot hang *)
+Lemma scan_body_fine rec o p acc :
+  (forall p' acc', (length p' < length p)%nat -> fine (rec p' acc')) ->
+  fine (SBODY rec o p acc).
+Proof.
+  intros Hrec. unfold scan_body. destruct p as [|c0 p0]; [exact I|].
+  set (p := c0 :: p0) in *.
+  pose proof (scan_blank_len o p) as L1.
+  destruct (take_run o (scan_blank o p)) as [run p2] eqn:Er.
+  pose proof (take_run_app _ _ _ _ Er) as Eapp.
+  assert (L2 : (length run + length p2 = length (scan_blank o p))%nat) by (rewrite Eapp, app_length; reflexivity).
+  pose proof (scan_blank_len o p2) as L3.
+  destruct (scan_blank o p2) as [|ch p4] eqn:E3; [exact I|].
+  destruct (is_special ch) eqn:Esp; cbn [negb].
+  - (* special *)
+    destruct (ch =? 92).
+    + destruct (SB_ADV o false p4) as [F L].
+      destruct (SB o false p4) as [[|e p5]|c|w|]; cbn in F; try contradiction; cbn [bind]; try exact I.
+      destruct (L e p5 eq_refl) as [L5 Hnil]. specialize (Hnil eq_refl).
+      destruct e; cbn [node_of_esc]; try congruence;
+        cbv zeta; (destruct (is_true_quantifier (scan_blank o p5)); [exact I|]);
+        apply Hrec; pose proof (scan_blank_len o p5); cbn [length] in *; lia.
+    + destruct ((ch =? 123) && is_quantifier ch && negb (is_true_quantifier (ch :: p4))); [|exact I].
+      destruct run as [|r0 run']; [exact I|].
+      apply Hrec. cbn [length] in *. lia.
+  - (* ordinary character after the blanks: something was consumed *)
+    apply Hrec. destruct run as [|r0 run']; [|cbn [length] in *; lia].
+    exfalso. cbn [app] in Eapp. subst p2.
+    unfold scan_blank in *. destruct (useX o) eqn:EX.
+    + (* x-mode *)
+      destruct (blank_x false p) as [|c t] eqn:Eb; [discriminate|].
+      destruct (blank_x_head _ _ _ _ Eb) as [Hs Hh].
+      rewrite (blank_x_fix c t Hs Hh) in E3. inversion E3; subst ch p4.
+      pose proof (take_run_stop _ _ _ _ _ Er) as Hst. unfold is_stopper in Hst. rewrite EX in Hst.
+      destruct (stopper_not_special_is_blank c Hst Esp) as [Hb|Hb]; congruence.
+    + subst p. inversion E3; subst ch p4.
+      pose proof (take_run_stop _ _ _ _ _ Er) as Hst. unfold is_stopper in Hst. rewrite EX in Hst. congruence.
+Qed.
+
+Lemma scan_loop_fine o : forall f p acc, (length p < f)%nat -> fine (SL f o p acc).
+Proof.
+  induction f as [|f IH]; intros p acc Hf; [lia|].
+  cbn [scan_loop]. apply scan_body_fine. intros p' acc' Hp. apply IH. lia.
+Qed.
+
+Lemma prepass_body_fine rec o p :
+  (forall p', (length p' < length p)%nat -> fine (rec p')) ->
+  fine (prepass_body is_word_char to_lower rec o p).
+Proof.
+  intros Hrec. unfold prepass_body. destruct p as [|ch p']; [exact I|].
+  destruct (ch =? 92).
+  - destruct p' as [|c1 p1]; [exact I|].
+    destruct (SB_ADV o true (c1 :: p1)) as [F L].
+    destruct (SB o true (c1 :: p1)) as [[|e rest]|c|w|]; cbn in F; try contradiction; try exact I.
+    destruct (L e rest eq_refl) as [L5 _]. apply Hrec. cbn [length] in *. lia.
+  - destruct ((ch =? 35) && useX o) eqn:Eh.
+    + apply andb_prop in Eh. destruct Eh as [Eh EX]. assert (ch = 35) by lia. subst ch.
+      apply Hrec. unfold scan_blank. rewrite EX. cbn [blank_x]. rewrite is_space_hash.
+      change (35 =? 35) with true. cbv iota. pose proof (blank_x_len p' true). cbn [length]. lia.
+    + destruct (is_paren ch); [exact I|]. apply Hrec. cbn [length]. lia.
+Qed.
+
+Lemma prepass_fine o : forall f p, (length p < f)%nat -> fine (PRE f o p).
+Proof.
+  induction f as [|f IH]; intros p Hf; [lia|].
+  cbn [prepass]. apply prepass_body_fine. intros p' Hp. apply IH. lia.
+Qed.
+
+Theorem parse_lit_total o p : Forall (fun c => 0 <= c) p -> fine (PARSE o p).
+Proof.
+  intros Hnn. unfold parse_lit. rewrite pl_bounds_ok_true. cbn [negb].
+  assert (Hb : forallb (fun c => 0 <=? c) p = true).
+  { rewrite forallb_forall. rewrite Forall_forall in Hnn. intros c Hc. specialize (Hnn c Hc). lia. }
+  rewrite Hb. cbn [negb]. destruct (useRTL o); [exact I|].
+  pose proof (prepass_fine o (S (length p)) p (Nat.lt_succ_diag_r _)) as F1.
+  destruct (PRE (S (length p)) o p) as [pre|c|w|]; cbn in F1; try contradiction; cbn [bind]; [|exact I].
+  destruct pre; cbn [negb]; [|exact I].
+  pose proof (scan_loop_fine o (S (length p)) p [] (Nat.lt_succ_diag_r _)) as F2.
+  destruct (SL (S (length p)) o p []) as [r|c|w|]; cbn in F2; try contradiction; cbn [bind]; [|exact I].
+  destruct r; exact I.
+Qed.
+
+End Total2.
